@@ -303,8 +303,8 @@ def report(F, rep, rule, cand_spec, floor):
             base = what.split(' (')[0][:50]
             ec = enclosing_conditions(f, node)
             if ec:
-                cond, br, _ = ec[0]
-                base += '|under:' + ('' if br == 'then' else 'not ') + render(cond)[:70]
+                # the whole chain of enclosing tests (innermost first): a return moved in front of an outer test is another failure path
+                base += '|under:' + ' & '.join(('' if br == 'then' else 'not ') + render(cond)[:70] for cond, br, _ in ec[:4])
             counters[base] = counters.get(base, 0) + 1
             k = '%s/%d|%s#%d' % (f.short, len(f.params), base, counters[base])
             total += 1
